@@ -937,8 +937,8 @@ def main(run):
     fold_cases = [{'part': 'fold', 'order': o, 'depth': depth} for o in ORDERS]
     cs = cases_sweep(run.tier)
     run.check_determinism(run_case, cs[0])
-    # the two searches run in forked workers alongside the sweeps
-    res_f = run.explore('fold', fold_cases + [], run_case, budget_s=1500, workers=1)
+    # the two searches (one per axial order) run one after the other in this process
+    res_f = run.explore('fold', fold_cases, run_case, budget_s=1500, workers=1)
     res_s = run.explore('sweep', cs, run_case, budget_s=300)
     ex = run.extra
     wh = ex.get('where', {})
